@@ -102,12 +102,13 @@ class Script:
             for g in set(tl):
                 wr = any(m != R for (gg, m, fl) in t['params'] if gg == g and not fl & 1)
                 seq.setdefault(g, []).append('W' if wr else 'R')
+        pure_r = sum(1 for op in self.ops if op[0] == 'task' for (g, mm, fl) in op[1]['params'] if mm == R and not fl & 1)
         raw = war = 0; groups = 0
         for g, s in seq.items():
             st = ''.join(s)
             raw += len(re.findall('WR', st)); war += len(re.findall('RW', st)); groups += len(re.findall('RR+W', st))
         return dict(tasks=self.ntasks, tiles=len(self.tiles), raw=raw, war=war, reader_groups_then_writer=groups, repeated_tile_tasks=rep,
-                    nested_tasks=nested, dont_track_params=dont, nontrivial=bool(raw and war))
+                    nested_tasks=nested, dont_track_params=dont, pure_reader_params=pure_r, nontrivial=bool(raw and war))
 
     def task_writes(self, tid):
         for op in self.ops:
@@ -324,22 +325,32 @@ def cfg_str(cfg):
 
 
 def stall_class(bt, stuck=(), script=None, cfg=None):
-    """Stable key for a DTD stall from the gdb backtraces of all ranks and the harness's own stuck reports."""
-    bt = bt or ''
-    has = lambda name: re.search(r'\b%s\b' % name, bt) is not None
-    if has('made_sure_nextinline_is_null'): return 'dtd:stall:made_sure_nextinline_is_null'
-    if has('release_ownership_of_data'): return 'dtd:stall:release_ownership_of_data'
+    """Stable key of a stall: built from the harness's own stuck reports (which tasks keep getting AGAIN) and from the
+    feature class of the input (ranks, pure readers, rounds, nesting + window) — not from gdb, which may be unavailable
+    on a loaded machine.  The blocked frames seen by gdb are returned separately for the text."""
+    cfg = cfg or {}
     retry = set(i for o in stuck for i in (o.get('retrying_prepare_input') or []))
     if retry:
         # which tasks keep getting AGAIN from prepare_input?  -1 = runtime-inserted task (flush / first-out, both INOUT)
         readers = [i for i in retry if i >= 0 and script is not None and not script.task_writes(i)]
         if readers: return 'dtd:stall:reader-gets-again-for-ever'
-        if (cfg or {}).get('sched') in ('ll', 'llp', 'ip'): return 'dtd:stall:writer-again-livelock:lifo-or-inverse-priority-scheduler'
+        if cfg.get('sched') in ('ll', 'llp', 'ip'): return 'dtd:stall:writer-again-livelock:lifo-or-inverse-priority-scheduler'
         return 'dtd:stall:writer-again-never-satisfied'
-    if has('parsec_execute_and_come_back') and has('body_common'): return 'dtd:stall:inserting-task-blocked-by-window'
-    if has('parsec_execute_and_come_back'): return 'dtd:stall:window-blocked-inserter'
-    if has('parsec_taskpool_wait') or has('parsec_context_wait'): return 'dtd:stall:wait-never-returns'
-    return 'dtd:stall:unknown'
+    m = script.measures() if script is not None else {}
+    if m.get('nested_tasks') and (cfg.get('window') or cfg.get('threshold')): return 'dtd:stall:inserting-task-blocked-by-window'
+    if cfg.get('ranks', 1) > 1:
+        k = 'dtd:stall:multi-rank:' + ('reader-chains' if m.get('pure_reader_params') else 'writers-only')
+        if (script.feat.get('rounds') or 1) > 1: k += ':second-round'
+        return k
+    return 'dtd:stall:single-rank'
+
+
+def blocked_frames(bt):
+    bt = bt or ''
+    names = ('made_sure_nextinline_is_null', 'release_ownership_of_data', 'parsec_execute_and_come_back', 'parsec_taskpool_wait', 'parsec_context_wait',
+             'parsec_insert_dtd_task', 'parsec_insert_dtd_flush_task', 'remote_dep_dequeue_main')
+    f = [n for n in names if re.search(r'\b%s\b' % n, bt)]
+    return '+'.join(f) if f else 'no backtrace'
 
 
 def judge(ctx, prop, r, txt, what, feature=None):
@@ -415,7 +426,8 @@ class Campaign:
                 cls = stall_class(r2.backtraces or r.backtraces, r2.of('stuck') + r.of('stuck'), s, cfg)
                 if feature: cls = cls.replace('dtd:stall', 'stall')
                 key = (feature + ':' if feature else '') + (job.get('stall_key') or cls)
-                v = ctx.violation(key, '%s made no progress twice (no task executed during the stall window); blocked frames class: %s; %s' % (what, cls, _stuck_lines(r2)), r2, {'script.txt': txt})
+                v = ctx.violation(key, '%s made no progress twice (no task executed during the stall window); blocked in: %s; %s'
+                                  % (what, blocked_frames((r2.backtraces or '') + (r.backtraces or '')), _stuck_lines(r2)), r2, {'script.txt': txt})
                 job['status'] = 'violation' if v else 'known'; job['result'] = r2
                 return job
             ctx.inconclusive_case('%s stalled once (not reproduced)' % what)
